@@ -356,8 +356,34 @@ def normalise_outcome(case, o):
     return o
 
 
+def deep_probe(ctx):
+    """the parser on path texts nested n levels deep (parentheses; exists(@?( ... )), each in its own process: the recursive-
+    descent parser has no depth limit.  A death on a stack-overflow signal at or beyond the depth recorded with the open known
+    finding is that finding; a panic, or a death on a shallower text, is a violation (same protocol as C20 part B)."""
+    from .. import core
+    known = {k['class']: k for k in core.load_known() if k.get('property') == 'C09' and k.get('status') == 'open' and k.get('class')}
+    k = known.get('deep-recursion-path-parser')
+    mins = (k or {}).get('min_depth_by_kind', {})
+    for kind in ('paren', 'exists'):
+        ns = [64, 256, 1000, 2000] + ([mins[kind] - 1] if kind in mins else []) + [20000, 100000]
+        for n in sorted(set(ns)):
+            try:
+                o = core.run_one(core.HARNESS_BIN, 'd deep path_parse %d %s' % (n, kind), timeout=300)
+            except Exception:
+                o = 'timeout'
+            ctx.count('deep_path_texts', '%s:%s' % (kind, o.split(' ')[0]))
+            if o.startswith('ok') or o.startswith('err'):
+                continue
+            if k and o.startswith('abort') and n >= mins.get(kind, 1 << 62):
+                ctx.known_hits['deep-recursion-path-parser'] = ctx.known_hits.get('deep-recursion-path-parser', 0) + 1
+            else:
+                ctx.violate('a nested path text brings the parser down' if o.startswith('abort') else 'a nested path text makes the parser panic',
+                            case='deep path_parse %d %s' % (n, kind), observed=o)
+
+
 def judge(ctx):
     impl = ctx.impl
+    deep_probe(ctx)
     for c in ctx.cases:
         o = impl.get(c.id, 'missing')
         if o == 'panic' or o.startswith('abort'):
